@@ -4,7 +4,7 @@
 // Values are generated here, encoded by encoding/json and by jsoniter (the encoder goProbe itself uses),
 // both through a pointer and by value, decoded by either library into a fresh zero value and compared with a
 // reflection based equivalence written for this check (times by instant, nil == empty for slices/maps,
-// unexported and `json:"-"` fields ignored).
+// unexported fields and interface-typed fields (Statement.Output) ignored).
 package c17
 
 import (
@@ -39,7 +39,7 @@ func init() {
 			"results.Result (0-10 rows with v4/v6/v4-mapped/absent addresses, time labels in 5 zone representations, with nanoseconds and absent, counters up to MaxUint64, all status codes, host statuses, stats present/absent, timings with monotonic clock readings), " +
 			"each through {encoding/json, jsoniter} x {encode via pointer, encode by value} x {decode with encoding/json, jsoniter}. A value is non-trivial iff it is not the zero value of its type; distinct by its JSON text.",
 		Assumptions: []string{
-			"equivalence: time.Time by instant; nil and empty slices/maps are equivalent; unexported fields, `json:\"-\"` fields (Statement.Output, Result.err) and the unexported Statement.attributes are not part of the value",
+			"equivalence: time.Time by instant; nil and empty slices/maps are equivalent; unexported fields (Result.err, Statement.attributes) and the io.Writer Statement.Output are not part of the value",
 			"strings are valid UTF-8 (JSON cannot carry anything else)",
 			"timestamps lie in years 1..9999 (JSON/RFC 3339 cannot carry others)",
 		},
@@ -87,7 +87,7 @@ func equiv(a, b reflect.Value, path string) string {
 	case reflect.Struct:
 		for i := 0; i < a.NumField(); i++ {
 			f := a.Type().Field(i)
-			if !f.IsExported() || f.Tag.Get("json") == "-" {
+			if !f.IsExported() {
 				continue
 			}
 			if d := equiv(a.Field(i), b.Field(i), path+"."+f.Name); d != "" {
